@@ -41,11 +41,42 @@ func finite(xs ...float64) bool {
 	return true
 }
 
-// qlist renders a list of floats as a Coq list of Q.
+// dyadic: x = m * 2^e with m odd (or 0)
+func dyadic(x float64) (m *big.Int, e int) {
+	if x == 0 {
+		return big.NewInt(0), 0
+	}
+	fr, exp := math.Frexp(x)
+	mi := int64(fr * (1 << 53))
+	e = exp - 53
+	for mi%2 == 0 {
+		mi /= 2
+		e++
+	}
+	return big.NewInt(mi), e
+}
+
+// qlist renders a list of floats as a Coq list of Q, all over ONE common power-of-two denominator (sums of products
+// of such numbers keep a common denominator in the evaluator, which keeps the exact rationals small).
 func qlist(xs []float64) string {
-	items := make([]string, len(xs))
+	minE := 0
+	ms := make([]*big.Int, len(xs))
+	es := make([]int, len(xs))
 	for i, x := range xs {
-		items[i] = qlit(x)
+		ms[i], es[i] = dyadic(x)
+		if es[i] < minE {
+			minE = es[i]
+		}
+	}
+	den := new(big.Int).Lsh(big.NewInt(1), uint(-minE)).String()
+	items := make([]string, len(xs))
+	for i := range xs {
+		n := new(big.Int).Lsh(ms[i], uint(es[i]-minE))
+		if n.Sign() < 0 {
+			items[i] = "(" + n.String() + ")#" + den
+		} else {
+			items[i] = n.String() + "#" + den
+		}
 	}
 	return "[" + strings.Join(items, ";") + "]%Q"
 }
